@@ -14,8 +14,8 @@
 
   The plumbing is `ImpFound.Ref` ("the source raises what the model raises, or returns a related value") with its `>>=` /
   `PyRt.forIn` rules.  The generated definitions are unfolded by name; the only generated shape the relations depend on is the
-  order of the components of the loop states (sorted by variable name by the translator), which is confined to `FSt.pack` / `CSt.pack`,
-  their projections, and the anonymous-constructor patterns that destructure a state.
+  order of the components of the loop states (sorted by the text of their type, then by variable name, by the translator), which is
+  confined to `FSt.pack` / `CSt.pack` and their projections (a state is destructured through `FSt.cases` / `CSt.cases`).
 -/
 import AgpTpf.Properties.C01ImpFound
 import AgpTpf.Properties.C01ImpCut
@@ -135,18 +135,22 @@ def overlapsOf (input : List Scaffold) (bait : Fragment) : R (Option OverlapResu
 def mkBuild (b0 : Build) (store : List Res) (s : PyRt.SrcNamer) (heap : List Found) (found multi : List (Key × Nat)) : Build :=
   { b0 with store := store, namer := C09.absNamer s, found := C01.absFound heap found, multi := multi.map (·.1) }
 
-/-- the loop state of the translated `find_assembly_overlaps` (both loops).  The translator orders the components by variable name:
-    `(heap_ff, self_found_fragments, self_fragments_found_more_than_once, self_scaffold_namer, store)`.  `FSt.pack` and the
+/-- the loop state of the translated `find_assembly_overlaps` (both loops).  The translator orders the components by the text of their
+    type, then by variable name:
+    `(self_found_fragments, self_fragments_found_more_than_once, heap_ff, store, self_scaffold_namer)`.  `FSt.pack` and the
     projections below are the ONLY place that knows this order: a future permutation needs this block edited, nothing else. -/
-abbrev FSt := List Found × List (Key × Nat) × List (Key × Nat) × PyRt.SrcNamer × List Res
+abbrev FSt := List (Key × Nat) × List (Key × Nat) × List Found × List Res × PyRt.SrcNamer
 
 @[reducible] def FSt.pack (store : List Res) (s : PyRt.SrcNamer) (heap : List Found) (found multi : List (Key × Nat)) : FSt :=
-  (heap, found, multi, s, store)
-@[reducible] def FSt.store (st : FSt) : List Res := st.2.2.2.2
-@[reducible] def FSt.namer (st : FSt) : PyRt.SrcNamer := st.2.2.2.1
-@[reducible] def FSt.heap (st : FSt) : List Found := st.1
-@[reducible] def FSt.found (st : FSt) : List (Key × Nat) := st.2.1
-@[reducible] def FSt.multi (st : FSt) : List (Key × Nat) := st.2.2.1
+  (found, multi, heap, store, s)
+@[reducible] def FSt.store (st : FSt) : List Res := st.2.2.2.1
+@[reducible] def FSt.namer (st : FSt) : PyRt.SrcNamer := st.2.2.2.2
+@[reducible] def FSt.heap (st : FSt) : List Found := st.2.2.1
+@[reducible] def FSt.found (st : FSt) : List (Key × Nat) := st.1
+@[reducible] def FSt.multi (st : FSt) : List (Key × Nat) := st.2.1
+/-- every state is a `FSt.pack` (used instead of an anonymous-constructor pattern, which would name the components by position) -/
+theorem FSt.cases (st : FSt) : ∃ store s heap found multi, st = FSt.pack store s heap found multi :=
+  ⟨st.store, st.namer, st.heap, st.found, st.multi, rfl⟩
 
 def RelF (b0 : Build) (st : FSt) (b : Build) : Prop :=
   C09.WfNamer st.namer ∧ C01.Coherent st.heap st.found st.multi ∧
@@ -249,21 +253,27 @@ theorem find_tie (input ptx : List Scaffold) (b0 : Build) (fo : Fragment → R (
   dsimp only
   refine forIn_bind_ok (RelF b0) ?step h ?fin
   case fin =>
-    rintro ⟨heap', found', multi', s', store'⟩ b' hr
+    rintro st b' hr
+    obtain ⟨store', s', heap', found', multi', rfl⟩ := st.cases
     exact Ref.ok hr
   case step =>
-    rintro ps - ⟨heap, found, multi, s, store⟩ b ⟨hw, hc, rfl⟩
+    rintro ps - st b hst
+    obtain ⟨store, s, heap, found, multi, rfl⟩ := st.cases
+    obtain ⟨hw, hc, rfl⟩ := hst
     dsimp only at hw hc ⊢
     refine Ref.bind (make_name_ref s ps hw) ?_
     rintro s1 n ⟨rfl, hw1⟩
     refine forIn_bind (RelF b0) ?bait ⟨hw1, hc, rfl⟩ ?after
     case after =>
-      rintro ⟨heap', found', multi', s', store'⟩ b' ⟨hw', hc', rfl⟩
+      rintro st b' hst
+      obtain ⟨store', s', heap', found', multi', rfl⟩ := st.cases
+      obtain ⟨hw', hc', rfl⟩ := hst
       dsimp only at hw' hc' ⊢
       rw [rename_unlocs_eq]
       exact Ref.ok ⟨_, rfl, hw', hc', rfl⟩
     case bait =>
-      rintro bait - ⟨heap, found, multi, s, store⟩ b hr
+      rintro bait - st b hr
+      obtain ⟨store, s, heap, found, multi, rfl⟩ := st.cases
       rw [processBait_eq, hfo]
       dsimp only
       cases overlapsOf input bait with
@@ -277,18 +287,21 @@ theorem find_tie (input ptx : List Scaffold) (b0 : Build) (fo : Fragment → R (
 
 /-! ### 5. `cut_remaining_overhangs` -/
 
-/-- the loop state of the translated `cut_remaining_overhangs`, components ordered by variable name:
-    `(heap_ff, nextOid, self_assembly_stats_cuts, self_fragments_found_more_than_once, store)`; the arena and `multi` are not touched
+/-- the loop state of the translated `cut_remaining_overhangs`, components ordered by the text of their type, then by variable name:
+    `(self_fragments_found_more_than_once, heap_ff, store, self_assembly_stats_cuts, nextOid)`; the arena and `multi` are not touched
     by the loop.  `CSt.pack` and the projections are the only place that knows the order. -/
-abbrev CSt := List Found × Nat × Int × List (Key × Nat) × List Res
+abbrev CSt := List (Key × Nat) × List Found × List Res × Int × Nat
 
 @[reducible] def CSt.pack (store : List Res) (heap : List Found) (multi : List (Key × Nat)) (oid : Nat) (cuts : Int) : CSt :=
-  (heap, oid, cuts, multi, store)
-@[reducible] def CSt.store (st : CSt) : List Res := st.2.2.2.2
-@[reducible] def CSt.heap (st : CSt) : List Found := st.1
-@[reducible] def CSt.multi (st : CSt) : List (Key × Nat) := st.2.2.2.1
-@[reducible] def CSt.oid (st : CSt) : Nat := st.2.1
-@[reducible] def CSt.cuts (st : CSt) : Int := st.2.2.1
+  (multi, heap, store, cuts, oid)
+@[reducible] def CSt.store (st : CSt) : List Res := st.2.2.1
+@[reducible] def CSt.heap (st : CSt) : List Found := st.2.1
+@[reducible] def CSt.multi (st : CSt) : List (Key × Nat) := st.1
+@[reducible] def CSt.oid (st : CSt) : Nat := st.2.2.2.2
+@[reducible] def CSt.cuts (st : CSt) : Int := st.2.2.2.1
+/-- every state is a `CSt.pack` (used instead of an anonymous-constructor pattern) -/
+theorem CSt.cases (st : CSt) : ∃ store heap multi oid cuts, st = CSt.pack store heap multi oid cuts :=
+  ⟨st.store, st.heap, st.multi, st.oid, st.cuts, rfl⟩
 
 def RelC (b0 : Build) (heap : List Found) (multi : List (Key × Nat)) (st : CSt) (b : Build) : Prop :=
   st.heap = heap ∧ st.multi = multi ∧ b = { b0 with store := st.store, nextOid := st.oid, cuts := st.cuts }
@@ -305,10 +318,14 @@ theorem cut_tie (b : Build) (heap : List Found) (found multi : List (Key × Nat)
   rw [hm, List.foldlM_map, forIn_map]
   refine forIn_bind (RelC b heap multi) ?step ⟨rfl, rfl, rfl⟩ ?fin
   case fin =>
-    rintro ⟨heap', oid', cuts', multi', store'⟩ b' ⟨rfl, rfl, rfl⟩
+    rintro st b' hst
+    obtain ⟨store', heap', multi', oid', cuts', rfl⟩ := st.cases
+    obtain ⟨rfl, rfl, rfl⟩ := hst
     exact Ref.ok ⟨rfl, rfl⟩
   case step =>
-    rintro kv hkv ⟨heap', oid', cuts', multi', store'⟩ b' ⟨rfl, rfl, rfl⟩
+    rintro kv hkv st b' hst
+    obtain ⟨store', heap', multi', oid', cuts', rfl⟩ := st.cases
+    obtain ⟨rfl, rfl, rfl⟩ := hst
     dsimp only
     have hg : dGet? b.found kv.1 = some (PyRt.getFound heap' kv.2) := by
       rw [hf]
